@@ -483,7 +483,7 @@ for e, props in (('b_rt_times', ['C01', 'C03', 'C04', 'C05', 'C06', 'C08', 'C14'
 UNITS['c09'] = {
     'opaque': [' get_lock$'],
     'dyn_types': [r'^sequence_handler<[012]>$', r'^call_matcher<.*>$', r'^return_handler_t<.*lambdaat.*>$', r'^condition<.*\(lambdaat.*\)>$', r'^side_effect<.*\(lambdaat.*\)>$', r'^vp_vp_MI$'],
-    'roots': {'C09_ALIAS': '^_ZN14vp_trompeloeil12vp_c09_aliasE', 'C09_LR': '^_ZN14vp_trompeloeil16vp_c09_lr_returnE', 'C09_POS': '^_ZN14vp_trompeloeil16vp_c09_positionsE', 'C09_A15': '^_ZN14vp_trompeloeil14vp_c09_arity15E', 'C09_A15T': '^_ZN14vp_trompeloeil20vp_c09_arity15_throwE', 'C09_RV': '^_ZN14vp_trompeloeil13vp_c09_rvalueE', 'C09_MO': '^_ZN14vp_trompeloeil15vp_c09_moveonlyE', 'C14_MOVE': '^_ZN14vp_trompeloeil11vp_c14_moveE', 'C08_THROW': '^_ZN14vp_trompeloeil12vp_c08_throwE', 'C15_PM': '^_ZN14vp_trompeloeil21vp_c15_param_mismatchE', 'C04_UNF': '^_ZN14vp_trompeloeil18vp_c04_unfulfilledE', 'OBS15': 'rec:^vp_vp_obs15$', 'OBS': 'rec:^vp_vp_obs$'},
+    'roots': {'C09_ALIAS': '^_ZN14vp_trompeloeil12vp_c09_aliasE', 'C09_LR': '^_ZN14vp_trompeloeil16vp_c09_lr_returnE', 'C09_POS': '^_ZN14vp_trompeloeil16vp_c09_positionsE', 'C09_A15': '^_ZN14vp_trompeloeil14vp_c09_arity15E', 'C09_A15T': '^_ZN14vp_trompeloeil20vp_c09_arity15_throwE', 'C09_RV': '^_ZN14vp_trompeloeil13vp_c09_rvalueE', 'C09_MO': '^_ZN14vp_trompeloeil15vp_c09_moveonlyE', 'C14_MOVE': '^_ZN14vp_trompeloeil11vp_c14_moveE', 'C08_THROW': '^_ZN14vp_trompeloeil12vp_c08_throwE', 'C15_PM': '^_ZN14vp_trompeloeil21vp_c15_param_mismatchE', 'C04_UNF': '^_ZN14vp_trompeloeil18vp_c04_unfulfilledE', 'C04_UNW': '^_ZN14vp_trompeloeil14vp_c04_unwoundE', 'OBS15': 'rec:^vp_vp_obs15$', 'OBS': 'rec:^vp_vp_obs$'},
 }
 ob(name='scenario.movable_mock_moved', cbmc_flags=['--memory-leak-check'], kind='FC+', props=['C14', 'C03', 'C15'], unit='c09', harness='h_c09.c', entry='c_move', unwind=14, timeout=900, object_bits=12, defines={'VP_TOK_CAP': 12},
    bound='none for the argument value; the scenario (movable mock with one active and one saturated expectation, moved, called, over-called) is fixed by the driver function')
@@ -495,6 +495,8 @@ UNITS['c17s'] = {'opaque': [' get_lock$', r'9vp_tracer5traceE'], 'dyn_types': [r
 ob(name='scenario.unfulfilled_report_values', cbmc_flags=['--memory-leak-check'], kind='BL', props=['C04', 'C15', 'C14'], unit='c09', harness='h_c09.c', entry='c_unfulfilled', unwind=26, timeout=1200, object_bits=12, defines={'VP_TOK_CAP': 24},
    variants=[('never', {'W_X': 5}), ('once', {'W_X': 7})], min_reach=0,
    bound='one expectation p(v, _) with TIMES(2, 4) and a free value v, called never or once, then its scope ends')
+ob(name='scenario.unfulfilled_when_unwound', cbmc_flags=['--memory-leak-check'], kind='FC+', props=['C04', 'C15', 'C14'], unit='c09', harness='h_c09.c', entry='c_unwound', unwind=26, timeout=1200, object_bits=12, defines={'VP_TOK_CAP': 24},
+   bound='none: one unfulfilled expectation whose scope is left by the exception of a fatal report about another mock function')
 ob(name='scenario.tracer_object', cbmc_flags=['--memory-leak-check'], kind='FC+', props=['C17', 'C14'], unit='c17s', harness='h_c17s.c', entry='c_trace', unwind=26, timeout=900, object_bits=12, defines={'VP_TOK_CAP': 24},
    bound='none for the argument values; one tracer object, one accepted call while it is alive and one after it died')
 ob(name='scenario.tracer_null_values', cbmc_flags=['--memory-leak-check'], kind='FC+', props=['C17', 'C18', 'C14', 'C08'], unit='c17s', harness='h_c17s.c', entry='c_trace_null', unwind=26, timeout=900, object_bits=12, defines={'VP_TOK_CAP': 24},
